@@ -64,11 +64,18 @@ class Camera:
         """
         Safely get a copy of the current camera.
         """
+        # pass the quantity the camera was defined with: the other is
+        # derived from it and the resolution, passing both would make
+        # every copy a camera defined by its field of view
+        if self._focal_computed:
+            focal, fov = None, copy.deepcopy(self.fov)
+        else:
+            focal, fov = copy.deepcopy(self.focal), None
         return Camera(
             name=copy.deepcopy(self.name),
             resolution=copy.deepcopy(self.resolution),
-            focal=copy.deepcopy(self.focal),
-            fov=copy.deepcopy(self.fov),
+            focal=focal,
+            fov=fov,
             z_near=copy.deepcopy(self.z_near),
             z_far=copy.deepcopy(self.z_far),
         )
